@@ -63,10 +63,10 @@ for e in dsssim:C12 vsssim:C10 dkgsim:C11 pvsssim:C13; do
   compare xbuild test ${e%:*} ${e#*:} verif verif,constantTime,purego
 done
 # group/mod.Int itself (math/big vs compatible/bigmod): replicated op logs, many cheap runs
-K=$((K*25))
+K=$((K*50))
 compare xbuild test modsim C18 verif verif,constantTime
 compare xbuild test modsim C18 verif verif,constantTime,purego
-K=$((K/25))
+K=$((K/50))
 compare xbuildbn plain signsim C09 verif verif,generic
 K=$((K*10))   # the bn256 edge-limb programs are cheap: ten times as many runs
 compare xbuildbn plain heterosim C18 verif verif,generic
